@@ -2,7 +2,7 @@
 C32 — executable model of "where does a write land".
 
 Modelled code (quirks included):
-  internal/api/msgpack.go        writeMsgPack, extractMeasurements (skips records whose measurement is "")
+  internal/api/msgpack.go        writeMsgPack, extractMeasurements
   internal/ingest/msgpack.go     Decode / decodeMapPayload (batch handling, failing items skipped)
   internal/api/lineprotocol.go   WriteV1 / WriteInfluxDB / WriteSimple / handleWrite
   internal/api/import.go, import_inprocess.go, tle.go   (LP import, CSV/Parquet import preamble, TLE write/import)
@@ -96,15 +96,15 @@ def payloadVal (k : Name) : Val :=
   if k = kUDb then .s [101, 118, 105, 108, 95, 100, 98] else          -- "evil_db"
   if k = kDb then .s [101, 118, 105, 108, 95, 100, 98, 50] else .n    -- "evil_db2"
 
-/-- columnarToWALRecords / typedBatchToWALRecords for one row: `_database`, `_measurement` first, then every
-column is stored under its own name (a column called `_measurement` overwrites the routing entry). -/
+/-- columnarToWALRecords / typedBatchToWALRecords for one row: every column under its own name, then the
+routing entries `_database`, `_measurement` written LAST (they win over a column of the same name; in this
+association list the first binding wins, so they come first). -/
 def kTime : Name := [116, 105, 109, 101]   -- "time"
 /-- `rows`: for every row the names of the cells that row actually has; the column set is their union and a
 row lacking a column carries nil there. -/
 def walRow (db m : Name) (cols row : List Name) : Row :=
-  cols.map (fun c => (c, if c ∈ row then payloadVal c else Val.z)) ++ [(kTime, Val.n)] ++
-    (if kUMeas ∈ cols then [] else [(kUMeas, Val.s m)]) ++
-    (if kUDb ∈ cols then [] else [(kUDb, Val.s db)])
+  (kUMeas, Val.s m) :: (kUDb, Val.s db) ::
+    (cols.map (fun c => (c, if c ∈ row then payloadVal c else Val.z)) ++ [(kTime, Val.n)])
 
 def walRows (db m : Name) (rows : List (List Name)) : WalEntry :=
   .rows (rows.map (walRow db m rows.flatten))
@@ -141,14 +141,12 @@ inductive Top where
   | map (i : Item)
   | arr (is : Items)
 
-def nonEmpty (n : Name) : List Name := if n = [] then [] else [n]
-
 mutual
-  /-- api.MsgPackHandler.extractMeasurements on the decoded value (records with measurement "" are skipped;
+  /-- api.MsgPackHandler.extractMeasurements on the decoded value (every record's measurement, "" included;
   nested lists are walked) -/
   def extractI : Item → List Name
-    | .col m _ => nonEmpty (mname m)
-    | .row m _ _ => nonEmpty (mname m)
+    | .col m _ => [mname m]
+    | .row m _ _ => [mname m]
     | .bad => []
     | .junk => []
     | .batch is => extractIs is
@@ -279,15 +277,13 @@ def importPreamble (c : Cfg) (hdr qdb mparam : Name) : Pre :=
   if c.active && !c.allow d mparam then ⟨.denied, [], [], [mparam]⟩ else
   ⟨.ok, d, mparam, if c.active then [mparam] else []⟩
 
-/-- handleCSVImport / handleParquetImport.  QUIRK of the current code: the preamble reports a failure as
-`return "", "", c.Status(..).JSON(..)`, and fiber's `JSON` returns nil once the body is written, so the caller's
-`if errResp != nil` never fires: after a rejected preamble the import CONTINUES with database "" and
-measurement "" (the 400/403 status stays on the response). -/
+/-- handleCSVImport / handleParquetImport: a rejected preamble (sentinel error) ends the request. -/
 def importOne (c : Cfg) (hdr qdb mparam : Name) (fileOk : Bool) (cols : List Name) : Out :=
   let p := importPreamble c hdr qdb mparam
   let rdb := if hdr = [] then qdb else hdr
+  if p.status ≠ .ok then { status := p.status, db := rdb, checked := p.checked } else
   if !fileOk then { status := .bad, db := rdb, checked := p.checked } else
-  { status := p.status, db := rdb, checked := p.checked, keys := [⟨p.db, p.m⟩], flushed := true,
+  { status := .ok, db := rdb, checked := p.checked, keys := [⟨p.db, p.m⟩], flushed := true,
     wal := [walRows p.db p.m [cols]] }
 
 /-- `mparam`: `measurement` query parameter (csv, parquet) / `x-arc-measurement` header (tle, itle);
@@ -365,10 +361,15 @@ def rowStr (r : Row) (k : Name) : Name :=
   | some (_, .s v) => v
   | _ => []
 
-/-- `_measurement`, else `measurement`, else `m` (first non-empty string) -/
-def rowMeas (r : Row) : Name :=
-  if rowStr r kUMeas ≠ [] then rowStr r kUMeas else
-  if rowStr r kMeas ≠ [] then rowStr r kMeas else rowStr r kM
+def dedupeK : List Key → List Key
+  | [] => []
+  | x :: xs => if x ∈ dedupeK xs then dedupeK xs else x :: dedupeK xs
+
+/-- where a replicated row goes: `_measurement` (rows without it are skipped) under `_database`, else the
+database ParseEnvelope reported -/
+def rowTarget (db : Name) (r : Row) : Option Key :=
+  if rowStr r kUMeas = [] then none else
+    some ⟨if rowStr r kUDb = [] then db else rowStr r kUDb, rowStr r kUMeas⟩
 
 def rowHasData (r : Row) : Bool := r.any (fun kv => !(kv.1 ∈ routingKeys))
 
@@ -377,14 +378,14 @@ def applyInner (db : Name) : Inner → List Key
   | .colmap (some m) n => if m ≠ [] && n ≠ 0 then [⟨db, m⟩] else []
   | .colmap none _ => []
   | .rows rs =>
-      let ms := dedupe ((rs.map rowMeas).filter (· ≠ []))
-      (ms.filter (fun m => (rs.filter (fun r => rowMeas r = m)).any rowHasData)).map (fun m => ⟨db, m⟩)
+      (dedupeK (rs.filterMap (rowTarget db))).filter
+        (fun t => (rs.filter (fun r => rowTarget db r = some t)).any rowHasData)
   | .garbage => []
 
 /-- what the reader decodes from a writer-side WAL entry, and under which database -/
 def applyWal : WalEntry → List Key
   | .raw db m n => applyInner db (.colmap m n)                 -- envelope carries the writer's database
-  | .rows rs => applyInner defaultDB (.rows rs)               -- no envelope: ParseEnvelope falls back to "default"
+  | .rows rs => applyInner defaultDB (.rows rs)               -- no envelope: the rows' own `_database` routes
 
 def replicate (o : Out) : List Key := o.wal.flatMap applyWal
 
